@@ -7,6 +7,14 @@ use crate::engine::stepcase::*;
 use crate::gen::*;
 use serde_json::json;
 
+/// One case in 24 starts at an odd PC (bit 0 is ignored by the fetch): the instruction must do exactly what
+/// it does at the even address, or be refused with an error.
+pub fn odd_pc(case: &mut StepCase, e: &mut Ent) {
+    if case.irq.is_none() && e.chance(1, 24) {
+        case.pc |= 1;
+    }
+}
+
 pub type Builder<'a, T> = &'a dyn Fn(&mut Ent) -> (StepCase, T);
 
 pub struct Drive<'a, T> {
@@ -42,7 +50,10 @@ impl<'a, T> Drive<'a, T> {
                         return;
                     }
                     let raw = sample(&mut runner, &ent);
-                    let (case, tag) = b(&mut Ent::new(&raw));
+                    let mut e = Ent::new(&raw);
+                    let (mut case, tag) = b(&mut e);
+                    case.patches.extend(e.env_noise());
+                    odd_pc(&mut case, &mut e);
                     let mut st = w.stats.borrow_mut();
                     st.class_n(&format!("enumerated: {}", sub), 1);
                     let r = ev.eval(&mut w.emu.borrow_mut(), &mut st, &case, true, &mut |c, j, s| (self.classify)(c, j, &tag, s));
@@ -55,13 +66,19 @@ impl<'a, T> Drive<'a, T> {
             if !stop && self.random_cases > 0 {
                 let per = (self.random_cases / nshards as u32).max(1);
                 let fail = run_prop(mix(ctx.seed, self.salt + 0x8000 + shard as u64), per, &ent, |raw, shrinking| {
-                    let (case, tag) = (self.build_random)(&mut Ent::new(raw));
+                    let mut e = Ent::new(raw);
+                    let (mut case, tag) = (self.build_random)(&mut e);
+                    case.patches.extend(e.env_noise());
+                    odd_pc(&mut case, &mut e);
                     let mut st = w.stats.borrow_mut();
                     ev.eval(&mut w.emu.borrow_mut(), &mut st, &case, !shrinking, &mut |c, j, s| (self.classify)(c, j, &tag, s))
                 });
                 if let Some((raw, sig)) = fail {
                     // re-create the minimal case so that the replay file holds the shrunk input
-                    let (case, _) = (self.build_random)(&mut Ent::new(&raw));
+                    let mut e = Ent::new(&raw);
+                    let (mut case, _) = (self.build_random)(&mut e);
+                    case.patches.extend(e.env_noise());
+                    odd_pc(&mut case, &mut e);
                     let mut st = w.stats.borrow_mut();
                     st.failures.retain(|f| f.signature != sig);
                     let _ = ev.eval(&mut w.emu.borrow_mut(), &mut st, &case, false, &mut |_, _, _| {});
